@@ -3,6 +3,7 @@ package main
 import (
 	"fmt"
 	"strconv"
+	"strings"
 
 	"github.com/zclconf/go-cty/cty"
 	"verifharness/internal/cq"
@@ -56,8 +57,41 @@ func runOp(op string, args []cty.Value) (ret cty.Value, panicked bool, msg strin
 func (c *Ctx) wf(v cty.Value, where string) {
 	c.Count("wf_checked")
 	if err := cty.VerifWellFormed(v); err != nil {
+		if c.P.ID == "C03" && strings.Contains(err.Error(), "set holds two equal members") && onlyKFC031(v) {
+			c.Fail("C03/number-hash-text", fmt.Sprintf("%s returned a set holding two equal members: %v", where, err), cq.Show(v))
+			return
+		}
+		if c.P.ID != "C06" && strings.Contains(err.Error(), "set holds two equal members") && onlyKFC031(v) {
+			// KF-C03-1 (numbers equal by value hashed differently: 0 and -0, one number at two precisions) seen from
+			// another property: the set was built by the library from generated members; recorded once, under C03
+			c.Count("wf_kf_c03_1_seen")
+			return
+		}
 		c.Fail("C06/ill-formed", fmt.Sprintf("%s returned an ill-formed value: %v", where, err), cq.Show(v))
 	}
+}
+
+// onlyKFC031: every pair of equal members in every set inside v is a pair of numbers (or of structures differing
+// only in such numbers) that are equal by value and hashed differently
+func onlyKFC031(v cty.Value) bool {
+	ok := true
+	recovered(func() {
+		cty.Walk(v, func(p cty.Path, x cty.Value) (bool, error) {
+			u, _ := x.Unmark()
+			if u.IsKnown() && !u.IsNull() && u.Type().IsSetType() {
+				ms := u.AsValueSlice()
+				for i := range ms {
+					for j := i + 1; j < len(ms); j++ {
+						if e := ms[i].Equals(ms[j]); e.IsKnown() && e.True() && !numbersDifferOnlyInHashText(ms[i], ms[j]) {
+							ok = false
+						}
+					}
+				}
+			}
+			return true, nil
+		})
+	})
+	return ok
 }
 
 // wfFrom: as wf, but only when the input the value was computed from is well-formed itself
